@@ -20,8 +20,12 @@ Check(t) ==
       badgen == {r \in DOMAIN cs.gen :
                    LET w == GenWalk(g, [n \in Nodes(g) |-> FALSE], r)
                    IN \E n \in DOMAIN cs.gen[r] : GenPath(w.keys[n], g[n].cls) # cs.gen[r][n]}
-  IN IF bad = {} /\ badpre = {} /\ badloops = {} /\ badseal = {} /\ badgen = {} THEN TRUE
-     ELSE PrintT(<<"MISMATCH", t, bad, badpre, badloops, badseal, badgen>>)
+      (* definition list (C12): post-order, each object once *)
+      baddefs == {r \in DOMAIN cs.defs : DefsOrder(g, r) # cs.defs[r]}
+      (* runtime objects (C13): which nodes are instantiated, which pre-tasks run *)
+      badinst == {r \in DOMAIN cs.inst : Cardinality(InstNodes(g, r)) # cs.inst[r].nodes \/ Cardinality(InstPre(g, r)) # cs.inst[r].pre}
+  IN IF bad = {} /\ badpre = {} /\ badloops = {} /\ badseal = {} /\ badgen = {} /\ baddefs = {} /\ badinst = {} THEN TRUE
+     ELSE PrintT(<<"MISMATCH", t, bad, badpre, badloops, badseal, badgen, baddefs, badinst>>)
 
 Init == tid \in DOMAIN Cases
 Next == UNCHANGED tid
